@@ -11,6 +11,7 @@ NOT decided: non-termination or exotic exceptions inside lxml/yaml/json, wrong-s
 (outside "shaped like an odML dictionary"), YAML scanner errors of the text front end.
 """
 import ast
+import re
 
 from .. import analysis
 from ..astutil import calls_in, call_name, where
@@ -215,11 +216,12 @@ def root_gate_rule(prog, rep, rule="ROOT-2"):
               witness="<odml version=\"1.1\"> read with ignore_errors=True: AttributeError / None instead of ParserException")
 
 
-def xml_parser_options(prog, rep, rule, names):
-    """the lxml XMLParser of the reader is built without options that change which inputs are accepted (shared by C01, C16, C18)"""
+def xml_parser_options(prog, rep, rule, names, module="odml.tools.xmlparser"):
+    """the lxml XMLParser of the reader (or of the version converter) is built without options that change which inputs are accepted
+    (shared by C01, C15, C16, C17, C18)"""
     n = 0
     for f0 in prog.all_functions():
-        if f0.module.name != "odml.tools.xmlparser":
+        if f0.module.name != module:
             continue
         for c in calls_in(f0.node):
             if call_name(c).split(".")[-1] == "XMLParser":
@@ -232,7 +234,7 @@ def xml_parser_options(prog, rep, rule, names):
                     rep.check(not bad, rule, "%s: XMLParser without %s" % (f0.short, name), "ok",
                               "%s builds the parser with %s=%s, which %s" % (f0.short, name, unparse(bad[0].value) if bad else "", why), where(f0, c),
                               witness=wit)
-    rep.floor(rule, n, 1, "XMLParser constructions in tools.xmlparser")
+    rep.floor(rule, n, 1, "XMLParser constructions in %s" % module[5:])
 
 
 def run(prog, rep):
@@ -367,6 +369,9 @@ def run(prog, rep):
     # `recover` would turn malformed text into a partial document instead of a ParserException
     xml_parser_options(prog, rep, "LIB-1", ("huge_tree", "recover"))
 
+    first_row_rule(prog, rep, "ROW-1")
+    present_key_rule(prog, rep, "KEY-2")
+
     # --------------------------------------------------------------- REGEX-1
     regex_rule(prog, rep, "REGEX-1")
 
@@ -409,3 +414,99 @@ def _guarded(S, funcs, f, node, seen):
                         if any(t is f for t in S.targets(c, h)) or True:
                             sites.append((h, n))
     return bool(sites) and all(_guarded(S, funcs, h, n, seen) for h, n in sites)
+
+
+def first_row_rule(prog, rep, rule="ROW-1"):
+    """taking the first row of a csv reader needs a text that is known not to be empty"""
+    from ..symtext import Expander, _guards_at
+    from ..model import canonical_name
+    rep.rule(rule, "in the reader modules, wherever the first row of a csv.reader is taken without a fallback (list(reader)[0], rows[0], next(reader)) "
+                   "the reader runs over StringIO(T) for a text T that is known to be non-empty on every path to that point (a dominating truth "
+                   "test of the same expression): csv yields at least one row for a non-empty text and none for an empty one, where [0] raises "
+                   "IndexError - which no handler of the readers turns into ParserException")
+    n = 0
+    for mname in ("tools.xmlparser", "tools.dict_parser", "tools.odmlparser"):
+        mod = prog.module_of(mname)
+        for f in list(mod.functions.values()) + [m for c in mod.classes.values() for m in c.methods.values()]:
+            readers = [c for c in ast.walk(f.node) if isinstance(c, ast.Call) and canonical_name(prog, f, c.func) == "csv.reader" and c.args]
+            if not readers:
+                continue
+            g = build_cfg(f)
+            x = Expander(f, g)
+            for node in g.nodes:
+                for root in node.expr_roots():
+                    for e in ast.walk(root):
+                        first = None
+                        if isinstance(e, ast.Subscript) and isinstance(e.ctx, ast.Load) and isinstance(e.slice, ast.Constant) and isinstance(e.slice.value, int):
+                            first = e.value
+                        elif isinstance(e, ast.Call) and isinstance(e.func, ast.Name) and e.func.id == "next" and len(e.args) == 1:
+                            first = e.args[0]
+                        if first is None:
+                            continue
+                        t = x.text(first, node)
+                        if "csv.reader(" not in t:
+                            continue
+                        n += 1
+                        src = None
+                        for c in ast.walk(x.expand(first, node)):
+                            if isinstance(c, ast.Call) and unparse(c.func).split(".")[-1] == "StringIO" and len(c.args) == 1:
+                                src = unparse(c.args[0])
+                        atoms = _guards_at(x, node)
+                        good = src is not None and any(at == src and ap for at, ap in atoms)
+                        rep.check(good, rule, "%s: first row of the csv reader" % f.short, "the text %s is known to be non-empty" % src,
+                                  "%s takes the first row of a csv reader over `%s`, which is not known to be non-empty here (known: %s): an empty "
+                                  "text has no row and the access raises IndexError" % (f.short, src, [a for a, _ in atoms][:3]), where(f, e),
+                                  witness="<value>  </value> (white space only) in an XML file: IndexError instead of a document or ParserException")
+    rep.note("%s: %d first-row accesses on csv readers" % (rule, n))
+
+
+def present_key_rule(prog, rep, rule="KEY-2"):
+    """a literal key is looked up in an input dictionary only where the iteration has just met that key"""
+    from ..symtext import Expander, _guards_at
+    rep.rule(rule, "in the dictionary reader, inside a loop `for k in D` over an input dictionary, a lookup D['<literal>'] lies on paths that know "
+                   "the literal is a key of D: k == '<literal>' (directly, or of the value is_valid_attribute(k, ...) hands back, which is k or None) "
+                   "or '<literal>' in D. A test of anything derived from k (a mapped name, a lower-cased copy) does not say so: the lookup raises "
+                   "KeyError outside every handler")
+    n = 0
+    funcs = []
+    for qn in READER_FUNCS:
+        if ".dict_parser." not in "." + qn:
+            continue
+        for h in private_closure(prog.func(qn)):
+            if h not in funcs:
+                funcs.append(h)
+    for f in funcs:
+        g = build_cfg(f)
+        x = Expander(f, g, inline=prog)
+        loops = [h for h in g.nodes if h.kind == "for" and isinstance(h.ast.target, ast.Name)]
+        for node in g.nodes:
+            for root in node.expr_roots():
+                for e in ast.walk(root):
+                    if not (isinstance(e, ast.Subscript) and isinstance(e.ctx, ast.Load) and isinstance(e.slice, ast.Constant)
+                            and isinstance(e.slice.value, str) and isinstance(e.value, ast.Name)):
+                        continue
+                    d, key = e.value.id, e.slice.value
+                    over = [h for h in loops if g.dominates(h, node) and h.id != node.id and unparse(h.ast.iter) in (d, "%s.keys()" % d, "list(%s)" % d)
+                            and any(y is e for y in ast.walk(h.ast))]
+                    if not over:
+                        continue
+                    n += 1
+                    k = over[-1].ast.target.id
+                    kt = x.text(ast.Name(id=k, ctx=ast.Load()), node)
+                    dt = x.text(ast.Name(id=d, ctx=ast.Load()), node)
+                    good = False
+                    seen_atoms = []
+                    for at, ap in _guards_at(x, node):
+                        seen_atoms.append(at)
+                        if not ap:
+                            continue
+                        for kk, dd in ((k, d), (kt, dt)):
+                            if at in ("%s == %r" % (kk, key), "%r == %s" % (key, kk), "%r in %s" % (key, dd)):
+                                good = True
+                            if at.endswith(" == %r" % key) and re.match(r"^[\w.]+\.is_valid_attribute\(%s, [^()]*\) == " % re.escape(kk), at):
+                                good = True
+                    rep.check(good, rule, "%s: %s[%r]" % (f.short, d, key), "the key was just met by the iteration",
+                              "%s looks up %s[%r] on a path that does not know %r to be a key of %s (known: %s): KeyError outside every handler"
+                              % (f.short, d, key, key, d, seen_atoms[-3:]), where(f, e),
+                              witness="a Section dictionary that lists its children under another accepted spelling of the key")
+    rep.note("%s: %d literal lookups in iterated input dictionaries" % (rule, n))
